@@ -310,6 +310,8 @@ package parse
 //@   ensures val: r0 == tokAt(t, tcur(t) - 1) && !isWS(r0)
 //@   ensures ok: err == nil ==> (exists i in [0, 4) :: i < len(typs) && typs[i] == r0.tokenType) || len(typs) > 4
 //@   ensures bad: err != nil ==> (forall i :: 0 <= i && i < len(typs) ==> typs[i] != r0.tokenType)
+// C20: the error names the offending token: the first non-space token read
+//@   ensures errpos: err != nil ==> istype(err, "*UnexpectedTokenError") && unbox(err, "*UnexpectedTokenError").baseError.parseError.Pos == r0.Pos
 //@   loop 1 invariant twf(t) && tcur(t) == entry(tcur(t)) && rangeindex >= -1 && (forall j :: 0 <= j && j <= rangeindex ==> typs[j] != tok.tokenType)
 //@   loop 1 decreases len(typs) - rangeindex
 
@@ -320,22 +322,28 @@ package parse
 //@   ensures skipped: forall k :: old(tcur(t)) <= k && k < tcur(t) - 1 ==> isWS(tokAt(t, k))
 //@   ensures val: r0 == tokAt(t, tcur(t) - 1) && !isWS(r0)
 //@   ensures ok: err == nil ==> r0.tokenType == typ && r0.value == val
+//@   ensures errpos: err != nil ==> (istype(err, "*UnexpectedTokenError") && unbox(err, "*UnexpectedTokenError").baseError.parseError.Pos == r0.Pos) || (istype(err, "*UnexpectedValueError") && unbox(err, "*UnexpectedValueError").baseError.parseError.Pos == r0.Pos)
 
 //@ func parse.newUnexpectedTokenError
 //@   ensures result != nil
-//@   pure
+// C20: the error is of the documented type and located at the given token / position
+//@   ensures at: istype(result, "*UnexpectedTokenError") && fresh(unbox(result, "*UnexpectedTokenError")) && unbox(result, "*UnexpectedTokenError").baseError.parseError.Pos == actual.Pos
 //@ func parse.newUnclosedTagError
 //@   ensures result != nil
-//@   pure
+// C20: the error is of the documented type and located at the given token / position
+//@   ensures at: istype(result, "*UnclosedTagError") && fresh(unbox(result, "*UnclosedTagError")) && unbox(result, "*UnclosedTagError").baseError.parseError.Pos == start
 //@ func parse.newUnexpectedEOFError
 //@   ensures result != nil
-//@   pure
+// C20: the error is of the documented type and located at the given token / position
+//@   ensures at: istype(result, "*UnexpectedEOFError") && fresh(unbox(result, "*UnexpectedEOFError")) && unbox(result, "*UnexpectedEOFError").baseError.parseError.Pos == tok.Pos
 //@ func parse.newUnexpectedValueError
 //@   ensures result != nil
-//@   pure
+// C20: the error is of the documented type and located at the given token / position
+//@   ensures at: istype(result, "*UnexpectedValueError") && fresh(unbox(result, "*UnexpectedValueError")) && unbox(result, "*UnexpectedValueError").baseError.parseError.Pos == tok.Pos
 //@ func parse.newMultipleExtendsError
 //@   ensures result != nil
-//@   pure
+// C20: the error is of the documented type and located at the given token / position
+//@   ensures at: istype(result, "*MultipleExtendsError") && fresh(unbox(result, "*MultipleExtendsError")) && unbox(result, "*MultipleExtendsError").baseError.parseError.Pos == start
 
 // ---------------------------------------------------------------------------------------
 // Layer A — node constructors and small accessors are expanded at their call sites (inline):
@@ -502,6 +510,18 @@ package parse
 //@   ensures ok: err == nil ==> good(r0) && tcur(t) > old(tcur(t))
 
 //@ func parse.(*Tree).parseInnerExpr
+// C20: a literal, a name, a unary operator, a group, a hash or an array carries the position of its first token
+//@   asserts@tokenNumber anchor: err == nil ==> istype(r0, "*NumberExpr") && unbox(r0, "*NumberExpr").Pos == tok.Pos
+//@   asserts@tokenOperator anchor: err == nil ==> istype(r0, "*UnaryExpr") && unbox(r0, "*UnaryExpr").Pos == tok.Pos
+//@   asserts@tokenParensOpen anchor: err == nil ==> istype(r0, "*GroupExpr") && unbox(r0, "*GroupExpr").Pos == tok.Pos
+//@   asserts@tokenHashOpen anchor: err == nil ==> istype(r0, "*HashExpr") && unbox(r0, "*HashExpr").Pos == tok.Pos
+//@   asserts@tokenArrayOpen anchor: err == nil ==> istype(r0, "*ArrayExpr") && unbox(r0, "*ArrayExpr").Pos == tok.Pos
+//@   asserts@"null","NULL","none","NONE" anchor: istype(r0, "*NullExpr") && unbox(r0, "*NullExpr").Pos == tok.Pos
+//@   asserts@"true","TRUE" anchor: istype(r0, "*BoolExpr") && unbox(r0, "*BoolExpr").Pos == tok.Pos
+//@   asserts@"false","FALSE" anchor: istype(r0, "*BoolExpr") && unbox(r0, "*BoolExpr").Pos == tok.Pos
+//@   asserts@tokenName anchor: err == nil && istype(r0, "*NameExpr") ==> unbox(r0, "*NameExpr").Pos == tok.Pos
+// C20: an unexpected token is reported at that token
+//@   asserts@default errpos: istype(r1, "*UnexpectedTokenError") && unbox(r1, "*UnexpectedTokenError").baseError.parseError.Pos == tok.Pos
 //@   requires tinv(t)
 //@   ensures wf: tinv(t) && tcur(t) >= old(tcur(t))
 //@   ensures bal: err == nil ==> len(t.blocks) == old(len(t.blocks))
@@ -535,6 +555,8 @@ package parse
 //@   ensures ok: err == nil ==> r0 != nil && tcur(t) > old(tcur(t))
 
 //@ func parse.(*Tree).parseFunc
+// C20: a call carries the position of the function name
+//@   ensures anchor: err == nil ==> istype(r0, "*FuncExpr") && unbox(r0, "*FuncExpr").Pos == old(name.Pos)
 //@   requires tinv(t) && name != nil
 //@   ensures wf: tinv(t) && tcur(t) >= old(tcur(t))
 //@   ensures bal: err == nil ==> len(t.blocks) == old(len(t.blocks))
@@ -545,6 +567,12 @@ package parse
 
 // parse(): one construct. A nil node without error means the EOF token was consumed.
 //@ func parse.(*Tree).parse
+// C20: text, print and comment nodes carry the position of their first token (the text run, the opening delimiter)
+//@   asserts@tokenText anchor: nposIs(r0, tok.Pos)
+//@   asserts@tokenPrintOpen anchor: err == nil ==> nposIs(r0, tok.Pos)
+// C20 (rejection): a print statement that parses without error ends with its closing delimiter
+//@   asserts@tokenPrintOpen closed: err == nil ==> tokAt(t, tcur(t) - 1).tokenType == tokenPrintClose
+//@   asserts@tokenCommentOpen anchor: err == nil ==> nposIs(r0, tok.Pos)
 //@   requires tinv(t)
 //@   ensures wf: tinv(t) && tcur(t) >= old(tcur(t))
 //@   ensures bal: err == nil ==> len(t.blocks) == old(len(t.blocks))
@@ -553,6 +581,10 @@ package parse
 //@   ensures eof: err == nil && r0 == nil ==> tokAt(t, tcur(t) - 1).tokenType == tokenEOF
 
 //@ func parse.(*Tree).parseTag
+//@   ensures closed: err == nil ==> tokAt(t, tcur(t) - 1).tokenType == tokenTagClose
+// C20: a tag node carries the position of the tag's name token; an unknown tag name is an error at that token
+//@   asserts anchor: err == nil ==> nposIs(r0, name.Pos)
+//@   asserts@default unknown: istype(r1, "*UnexpectedTokenError") && unbox(r1, "*UnexpectedTokenError").baseError.parseError.Pos == name.Pos
 //@   requires tinv(t)
 //@   ensures wf: tinv(t) && tcur(t) >= old(tcur(t))
 //@   ensures bal: err == nil ==> len(t.blocks) == old(len(t.blocks))
@@ -560,6 +592,7 @@ package parse
 //@   ensures ok: err == nil ==> r0 != nil && tcur(t) > old(tcur(t))
 
 //@ func parse.(*Tree).parseUntilEndTag
+//@   ensures closed: err == nil ==> tokAt(t, tcur(t) - 1).tokenType == tokenTagClose
 //@   requires tinv(t)
 //@   ensures wf: tinv(t) && tcur(t) >= old(tcur(t))
 //@   ensures bal: err == nil ==> len(t.blocks) == old(len(t.blocks))
@@ -583,6 +616,9 @@ package parse
 //@   loop 2 decreases tcur(t)
 
 //@ func parse.parseExtends
+// C20 (rejection): a tag that parses without error has been closed: the last token consumed is its (end tag's) TAG_CLOSE
+//@   ensures closed: err == nil ==> tokAt(t, tcur(t) - 1).tokenType == tokenTagClose
+//@   ensures anchor: err == nil ==> nposIs(r0, start)
 //@   requires tinv(t)
 //@   ensures wf: tinv(t) && tcur(t) >= old(tcur(t))
 //@   ensures bal: err == nil ==> len(t.blocks) == old(len(t.blocks))
@@ -590,6 +626,9 @@ package parse
 //@   ensures ok: err == nil ==> r0 != nil && tcur(t) > old(tcur(t))
 
 //@ func parse.parseBlock
+// C20 (rejection): a tag that parses without error has been closed: the last token consumed is its (end tag's) TAG_CLOSE
+//@   ensures closed: err == nil ==> tokAt(t, tcur(t) - 1).tokenType == tokenTagClose
+//@   ensures anchor: err == nil ==> nposIs(r0, start)
 //@   reveal blocksOK
 //@   requires tinv(t)
 //@   ensures wf: tinv(t) && tcur(t) >= old(tcur(t))
@@ -598,6 +637,9 @@ package parse
 //@   ensures ok: err == nil ==> r0 != nil && tcur(t) > old(tcur(t))
 
 //@ func parse.parseIf
+// C20 (rejection): a tag that parses without error has been closed: the last token consumed is its (end tag's) TAG_CLOSE
+//@   ensures closed: err == nil ==> tokAt(t, tcur(t) - 1).tokenType == tokenTagClose
+//@   ensures anchor: err == nil ==> nposIs(r0, start)
 //@   requires tinv(t)
 //@   ensures wf: tinv(t) && tcur(t) >= old(tcur(t))
 //@   ensures bal: err == nil ==> len(t.blocks) == old(len(t.blocks))
@@ -605,6 +647,7 @@ package parse
 //@   ensures ok: err == nil ==> r0 != nil && tcur(t) > old(tcur(t))
 
 //@ func parse.parseIfBody
+//@   ensures closed: err == nil ==> tokAt(t, tcur(t) - 1).tokenType == tokenTagClose
 //@   requires tinv(t)
 //@   ensures wf: tinv(t) && tcur(t) >= old(tcur(t))
 //@   ensures bal: err == nil ==> len(t.blocks) == old(len(t.blocks))
@@ -614,6 +657,9 @@ package parse
 //@   loop 1 decreases left(t)
 
 //@ func parse.parseFor
+// C20 (rejection): a tag that parses without error has been closed: the last token consumed is its (end tag's) TAG_CLOSE
+//@   ensures closed: err == nil ==> tokAt(t, tcur(t) - 1).tokenType == tokenTagClose
+//@   ensures anchor: err == nil ==> r0.Pos == start
 //@   requires tinv(t)
 //@   ensures wf: tinv(t) && tcur(t) >= old(tcur(t))
 //@   ensures bal: err == nil ==> len(t.blocks) == old(len(t.blocks))
@@ -621,6 +667,9 @@ package parse
 //@   ensures ok: err == nil ==> r0 != nil && tcur(t) > old(tcur(t))
 
 //@ func parse.parseInclude
+// C20 (rejection): a tag that parses without error has been closed: the last token consumed is its (end tag's) TAG_CLOSE
+//@   ensures closed: err == nil ==> tokAt(t, tcur(t) - 1).tokenType == tokenTagClose
+//@   ensures anchor: err == nil ==> nposIs(r0, start)
 //@   requires tinv(t)
 //@   ensures wf: tinv(t) && tcur(t) >= old(tcur(t))
 //@   ensures bal: err == nil ==> len(t.blocks) == old(len(t.blocks))
@@ -628,6 +677,11 @@ package parse
 //@   ensures ok: err == nil ==> r0 != nil && tcur(t) > old(tcur(t))
 
 //@ func parse.parseEmbed
+// C20 (rejection): a tag that parses without error has been closed: the last token consumed is its (end tag's) TAG_CLOSE
+//@   ensures closed: err == nil ==> tokAt(t, tcur(t) - 1).tokenType == tokenTagClose
+// C20: a block overridden inside an embed carries the position of its own block tag
+//@   at "parseBlock(t, tok.Pos)" anchor: tok.tokenType == tokenName
+//@   ensures anchor: err == nil ==> nposIs(r0, start)
 //@   reveal blocksOK
 //@   requires tinv(t)
 //@   ensures wf: tinv(t) && tcur(t) >= old(tcur(t))
@@ -638,6 +692,7 @@ package parse
 //@   loop 1 decreases left(t)
 
 //@ func parse.parseIncludeOrEmbed
+//@   ensures closed: err == nil ==> tokAt(t, tcur(t) - 1).tokenType == tokenTagClose
 //@   requires tinv(t)
 //@   ensures wf: tinv(t) && tcur(t) >= old(tcur(t))
 //@   ensures bal: err == nil ==> len(t.blocks) == old(len(t.blocks))
@@ -645,6 +700,9 @@ package parse
 //@   ensures ok: err == nil ==> good(expr) && tcur(t) > old(tcur(t))
 
 //@ func parse.parseUse
+// C20 (rejection): a tag that parses without error has been closed: the last token consumed is its (end tag's) TAG_CLOSE
+//@   ensures closed: err == nil ==> tokAt(t, tcur(t) - 1).tokenType == tokenTagClose
+//@   ensures anchor: err == nil ==> nposIs(r0, start)
 //@   requires tinv(t)
 //@   ensures wf: tinv(t) && tcur(t) >= old(tcur(t))
 //@   ensures bal: err == nil ==> len(t.blocks) == old(len(t.blocks))
@@ -654,6 +712,9 @@ package parse
 //@   loop 1 decreases left(t)
 
 //@ func parse.parseSet
+// C20 (rejection): a tag that parses without error has been closed: the last token consumed is its (end tag's) TAG_CLOSE
+//@   ensures closed: err == nil ==> tokAt(t, tcur(t) - 1).tokenType == tokenTagClose
+//@   ensures anchor: err == nil ==> nposIs(r0, start)
 //@   requires tinv(t)
 //@   ensures wf: tinv(t) && tcur(t) >= old(tcur(t))
 //@   ensures bal: err == nil ==> len(t.blocks) == old(len(t.blocks))
@@ -661,6 +722,9 @@ package parse
 //@   ensures ok: err == nil ==> r0 != nil && tcur(t) > old(tcur(t))
 
 //@ func parse.parseDo
+// C20 (rejection): a tag that parses without error has been closed: the last token consumed is its (end tag's) TAG_CLOSE
+//@   ensures closed: err == nil ==> tokAt(t, tcur(t) - 1).tokenType == tokenTagClose
+//@   ensures anchor: err == nil ==> nposIs(r0, start)
 //@   requires tinv(t)
 //@   ensures wf: tinv(t) && tcur(t) >= old(tcur(t))
 //@   ensures bal: err == nil ==> len(t.blocks) == old(len(t.blocks))
@@ -668,6 +732,9 @@ package parse
 //@   ensures ok: err == nil ==> r0 != nil && tcur(t) > old(tcur(t))
 
 //@ func parse.parseFilter
+// C20 (rejection): a tag that parses without error has been closed: the last token consumed is its (end tag's) TAG_CLOSE
+//@   ensures closed: err == nil ==> tokAt(t, tcur(t) - 1).tokenType == tokenTagClose
+//@   ensures anchor: err == nil ==> nposIs(r0, start)
 //@   requires tinv(t)
 //@   ensures wf: tinv(t) && tcur(t) >= old(tcur(t))
 //@   ensures bal: err == nil ==> len(t.blocks) == old(len(t.blocks))
@@ -677,6 +744,9 @@ package parse
 //@   loop 1 decreases left(t)
 
 //@ func parse.parseMacro
+// C20 (rejection): a tag that parses without error has been closed: the last token consumed is its (end tag's) TAG_CLOSE
+//@   ensures closed: err == nil ==> tokAt(t, tcur(t) - 1).tokenType == tokenTagClose
+//@   ensures anchor: err == nil ==> nposIs(r0, start)
 //@   requires tinv(t)
 //@   ensures wf: tinv(t) && tcur(t) >= old(tcur(t))
 //@   ensures bal: err == nil ==> len(t.blocks) == old(len(t.blocks))
@@ -686,6 +756,9 @@ package parse
 //@   loop 1 decreases left(t)
 
 //@ func parse.parseImport
+// C20 (rejection): a tag that parses without error has been closed: the last token consumed is its (end tag's) TAG_CLOSE
+//@   ensures closed: err == nil ==> tokAt(t, tcur(t) - 1).tokenType == tokenTagClose
+//@   ensures anchor: err == nil ==> nposIs(r0, start)
 //@   requires tinv(t)
 //@   ensures wf: tinv(t) && tcur(t) >= old(tcur(t))
 //@   ensures bal: err == nil ==> len(t.blocks) == old(len(t.blocks))
@@ -693,6 +766,9 @@ package parse
 //@   ensures ok: err == nil ==> r0 != nil && tcur(t) > old(tcur(t))
 
 //@ func parse.parseFrom
+// C20 (rejection): a tag that parses without error has been closed: the last token consumed is its (end tag's) TAG_CLOSE
+//@   ensures closed: err == nil ==> tokAt(t, tcur(t) - 1).tokenType == tokenTagClose
+//@   ensures anchor: err == nil ==> nposIs(r0, start)
 //@   requires tinv(t)
 //@   ensures wf: tinv(t) && tcur(t) >= old(tcur(t))
 //@   ensures bal: err == nil ==> len(t.blocks) == old(len(t.blocks))
@@ -702,6 +778,9 @@ package parse
 //@   loop 1 decreases left(t)
 
 //@ func parse.parseVerbatim
+// C20 (rejection): a tag that parses without error has been closed: the last token consumed is its (end tag's) TAG_CLOSE
+//@   ensures closed: err == nil ==> tokAt(t, tcur(t) - 1).tokenType == tokenTagClose
+//@   ensures anchor: err == nil ==> nposIs(r0, start)
 //@   requires tinv(t)
 //@   ensures wf: tinv(t) && tcur(t) >= old(tcur(t))
 //@   ensures bal: err == nil ==> len(t.blocks) == old(len(t.blocks))
@@ -719,6 +798,14 @@ package parse
 //@ func parse.NewTree
 //@   ensures tstruct(result)
 
+// C20: nposIs(n, p) - the position recorded in node n is p (whatever the node type)
+//@ pred nposIs(n Node, p Pos) = (istype(n, "*TextNode") ==> unbox(n, "*TextNode").Pos == p) && (istype(n, "*PrintNode") ==> unbox(n, "*PrintNode").Pos == p) && (istype(n, "*BlockNode") ==> unbox(n, "*BlockNode").Pos == p) && (istype(n, "*IfNode") ==> unbox(n, "*IfNode").Pos == p) && (istype(n, "*ExtendsNode") ==> unbox(n, "*ExtendsNode").Pos == p) && (istype(n, "*ForNode") ==> unbox(n, "*ForNode").Pos == p) && (istype(n, "*IncludeNode") ==> unbox(n, "*IncludeNode").Pos == p) && (istype(n, "*UseNode") ==> unbox(n, "*UseNode").Pos == p) && (istype(n, "*SetNode") ==> unbox(n, "*SetNode").Pos == p) && (istype(n, "*DoNode") ==> unbox(n, "*DoNode").Pos == p) && (istype(n, "*FilterNode") ==> unbox(n, "*FilterNode").Pos == p) && (istype(n, "*MacroNode") ==> unbox(n, "*MacroNode").Pos == p) && (istype(n, "*ImportNode") ==> unbox(n, "*ImportNode").Pos == p) && (istype(n, "*FromNode") ==> unbox(n, "*FromNode").Pos == p) && (istype(n, "*CommentNode") ==> unbox(n, "*CommentNode").TextNode.Pos == p) && (istype(n, "*EmbedNode") ==> unbox(n, "*EmbedNode").IncludeNode.Pos == p)
+// C20: an error built by this package's constructors names the template it was raised in
+//@ pred errNamed(e error, name string) = (istype(e, "*UnexpectedTokenError") ==> unbox(e, "*UnexpectedTokenError").baseError.parseError.name == name)
+//@+ && (istype(e, "*UnclosedTagError") ==> unbox(e, "*UnclosedTagError").baseError.parseError.name == name)
+//@+ && (istype(e, "*UnexpectedEOFError") ==> unbox(e, "*UnexpectedEOFError").baseError.parseError.name == name)
+//@+ && (istype(e, "*UnexpectedValueError") ==> unbox(e, "*UnexpectedValueError").baseError.parseError.name == name)
+//@+ && (istype(e, "*MultipleExtendsError") ==> unbox(e, "*MultipleExtendsError").baseError.parseError.name == name)
 //@ pred tstruct(t *Tree) = t.lex != nil && t.root != nil && t.macros != nil && len(t.read) == 0 && len(t.unread) == 0 && ref(t.read) != ref(t.unread) && len(t.blocks) == 1 && t.blocks[0] != nil
 //@ func parse.(*Tree).Parse
 //@   reveal window, blocksOK
@@ -729,6 +816,7 @@ package parse
 // either the terminal token has been received (tokenize then closes the channel and returns, tokenize#post:closed, G3)
 // or the channel has been ranged over until it reported closed-and-empty (the drain loop on the error path).
 //@   ensures lexdone: t.lex.rcv > t.lex.term || drained(t.lex.tokens)
+//@   ensures named: err != nil ==> errNamed(err, t.Name)
 //@   loop 1 invariant tinv(t)
 //@   loop 1 decreases left(t)
 //@   loop 2 invariant true
@@ -738,6 +826,10 @@ package parse
 //@   loop 1 invariant true
 //@ func parse.(*Tree).leave
 //@   loop 1 invariant true
+//@ func parse.(*parseError).setTree
+//@   inline
 //@ func parse.(*Tree).enrichError
+//@   ensures same: result == err
+//@   ensures named: errNamed(result, t.Name)
 //@ func parse.newLexer
 //@   ensures init: result != nil && result.start == 0 && result.pos == 0 && result.line == 1 && result.offset == 0 && result.mode == modeNormal && result.parens == 0
